@@ -634,6 +634,12 @@ func checkPerPeerGoroutines(p *core.Program, r *core.Report) {
 	checkConstraintsPersisted(p, r)
 	checkFragmentIdentity(p, r)
 	checkPropertiesPersisted(p, r)
+	// the job table of the cron (pending-bundles retry, store cleaning) is registered by the Core and the routing
+	// algorithms from several goroutines and walked by the ticker: always under its mutex
+	gc := newGuardedEngine(p)
+	nJobs := gc.checkGuarded(r, []guardedField{{routingPkg, "Cron", "jobs", "pkg/routing.Cron.mutex"}}, true)
+	r.Count("accesses to Cron.jobs", nJobs)
+	r.Min("accesses to Cron.jobs", 3)
 }
 
 // checkFragmentIdentity — necessary for "an accepted bundle is never silently
